@@ -22,6 +22,25 @@ def run(ctx):
     pj = ctx.path("params.json")
     json.dump(prm, open(pj, "w"))
     req, n = vlib.generate(ctx, "Gen_Facade", None, "req.ndjson", env={"PARAMS": pj})
+    # families of inputs that differ only by inflection / spelling variant (what a too-coarse cache key would conflate):
+    # every ordinal inflection of the same rank, every spelling variant of the same number, k leading zeros
+    from checks import spell
+    extra = []
+    for kind, p2 in (("ord", dict(upto=130 if q else 1200, randn=60 if q else 600)), ("card", dict(upto=130 if q else 1200, randn=60 if q else 600)),
+                     ("zeros", dict(upto=40 if q else 300, randn=20 if q else 200))):
+        prm2 = dict(kind=kind, rlow=[0, 21, 181], rhigh=[0, 1], seed=ctx.seed % 100000, **p2)
+        extra.append(spell.generate(ctx, "Gen_Spell", prm2))
+        os.rename(extra[-1], ctx.path("req_%s.ndjson" % kind))
+        extra[-1] = ctx.path("req_%s.ndjson" % kind)
+    with open(req, "ab") as f:
+        base = 500000000
+        for e in extra:
+            for line in open(e, "rb"):
+                d = json.loads(line)
+                base += 1
+                d["i"] = base
+                d["mode"] = "text"
+                f.write((json.dumps(d, ensure_ascii=False) + "\n").encode("utf-8"))
     obs = ctx.path("obs.ndjson")
     nthreads = 8 if q else 16
     h = vlib.harness(ctx, "threads", req, obs, args=[nthreads, ctx.seed])
@@ -71,12 +90,12 @@ def run(ctx):
     for f in bad:
         kk = f["i"]
         rq = reqs.get(klist[kk]) if 0 <= kk < len(klist) else None
-        sig = dict(verdict=f["verdict"], lang=(rq or {}).get("lang"), input=(rq or {}).get("text") or (rq or {}).get("words"),
+        sig = dict(verdict=f["verdict"], lang=(rq or {}).get("lang"), input=(rq or {}).get("text") or (rq or {}).get("words") or (rq or {}).get("texts"),
                    output=(h["stdout"][:200] + h["stderr"][:200]) if f["verdict"] == "output-on-standard-streams" else "")
         ctx.failures.append(dict(verdict=f["verdict"], cls="%s/%s" % (f["verdict"], sig["lang"]), sig=sig, request=rq))
     ctx.nontrivial = len(reqs)
     for r in list(reqs.values())[:3]:
-        ctx.samples.append(dict(lang=r["lang"], mode=r["mode"], input=r.get("text") or r.get("words"), vias=r["vias"]))
+        ctx.samples.append(dict(lang=r["lang"], mode=r.get("mode"), input=r.get("text") or r.get("words") or r.get("texts"), vias=r.get("vias")))
     ctx.extra["threads"] = nthreads
     ctx.extra["distinct_calls"] = len(reqs)
     ctx.rule = ("call set generated by Gen_Facade (all languages' words and seeded texts through every language, concrete type and facade, "
